@@ -80,11 +80,11 @@ def free_busy_report(base_prefix: str, path: str, xml_request: Optional[ET.Eleme
 
     # First pull from storage
     retrieved_items = list(collection.get_filtered(filters))
+    collection_tag = collection.tag
     # !!! Don't access storage after this !!!
     unlock_storage_fn()
 
     cal = vobject.iCalendar()
-    collection_tag = collection.tag
     while retrieved_items:
         # Second filtering before evaluating occurrences.
         # ``item.vobject_item`` might be accessed during filtering.
